@@ -272,6 +272,8 @@ BStr.label = None
 def bvar(eng, name, cap, minlen=0, charset=None, excl="", printable=True):
     """fresh symbolic string: length in [minlen, cap]; chars from `charset` (if given) or printable ASCII minus `excl`"""
     s = BStr.var(eng, name, cap, minlen=minlen, charset=charset)
+    if minlen == cap:
+        s.ln = cap                      # fixed length: keep it a Python int so that column arithmetic stays concrete
     if charset is None and excl:
         for c in s.chars:
             for x in excl:
@@ -681,3 +683,89 @@ def instrument_module_functions(mod, names, eng):
 for _cls in (BStr, Rope):
     _cls.__deepcopy__ = lambda self, memo: self
     _cls.__copy__ = lambda self: self
+
+
+# ---- float(), str.method(x), containers holding proxies ---------------------------------------------
+def const_value(x):
+    """the Python str a BStr denotes when all its characters and its length are constants, else None"""
+    if isinstance(x, str):
+        return x
+    if isinstance(x, Rope):
+        x = x.flatten()
+    ln = x.ln if isinstance(x.ln, int) else z3.simplify(x.ln)
+    if not isinstance(ln, int):
+        if not z3.is_int_value(ln):
+            return None
+        ln = ln.as_long()
+    out = []
+    for c in x.chars[:ln]:
+        c = z3.simplify(c)
+        if not z3.is_int_value(c):
+            return None
+        out.append(chr(c.as_long()))
+    return "".join(out)
+
+
+def _sx_float(self, x):
+    if isinstance(x, (BStr, Rope)):
+        v = const_value(x)
+        if v is None:
+            raise NotImplementedError("float() of a symbolic string (numeric text fields are taken from concrete tables)")
+        return float(v)
+    return builtins.float(x)
+
+
+SX.float = _sx_float
+
+
+def _sx_strmethod(self, name, obj, *args):
+    if isinstance(obj, (BStr, Rope)):
+        return getattr(obj, name)(*args)
+    return getattr(str, name)(obj, *args)
+
+
+SX.strmethod = _sx_strmethod
+
+
+def _has_proxy(container):
+    try:
+        return any(isinstance(c, (BStr, Rope, SInt)) or (isinstance(c, tuple) and any(isinstance(d, (BStr, Rope, SInt)) for d in c))
+                   for c in container)
+    except TypeError:
+        return False
+
+
+_prev_contains = SX.contains
+
+
+def _sx_contains2(self, item, container):
+    if isinstance(item, BStr) and isinstance(container, str):
+        # symbolic (short) string inside a constant string: fork on the item's length, then compare substrings
+        L = item.eng_concretize_len()
+        alts = [z3.And([item.chars[k] == ord(container[p + k]) for k in range(L)]) if L else z3.BoolVal(True)
+                for p in range(len(container) - L + 1)]
+        return bool(SBool(self.eng, z3.Or(alts) if alts else z3.BoolVal(False)))
+    if not isinstance(item, (BStr, Rope)) and isinstance(container, (set, frozenset, dict, list, tuple)) and _has_proxy(container):
+        for c in container:
+            if bool(c == item):
+                return True
+        return False
+    return _prev_contains(self, item, container)
+
+
+SX.contains = _sx_contains2
+
+
+def _visit_call2(self, node):
+    self.generic_visit(node)
+    if isinstance(node.func, ast.Name) and node.func.id in ("len", "str", "int", "float"):
+        node.func = ast.Attribute(ast.Name("_sx", ast.Load()), node.func.id, ast.Load())
+    elif (isinstance(node.func, ast.Attribute) and isinstance(node.func.value, ast.Name) and node.func.value.id == "str"
+          and node.func.attr in ("isalpha", "isdigit", "upper", "lower", "strip", "startswith", "endswith")):
+        node = ast.Call(ast.Attribute(ast.Name("_sx", ast.Load()), "strmethod", ast.Load()),
+                        [ast.Constant(node.func.attr)] + node.args, node.keywords)
+    return node
+
+
+Rewriter.visit_Call = _visit_call2
+SInt.__hash__ = lambda self: 0x51A7     # constant: dict/set lookups fall back to __eq__ (forks on equality, not on the value)
